@@ -37,6 +37,7 @@ pub open spec fn vd_frame(b0: Builder<'_, '_>, b1: Builder<'_, '_>) -> bool {
     b1.in_dynamic_branch == b0.in_dynamic_branch && b1.skip_dynamic_deps == b0.skip_dynamic_deps
       && (*b1.graph).graph_kind == (*b0.graph).graph_kind && b1.state.dynamic_branches == b0.state.dynamic_branches
       && b1.resolved_roots == b0.resolved_roots && (*b1.graph).roots == (*b0.graph).roots
+      && (*b1.graph).imports == (*b0.graph).imports
 }
 pub assume_specification<'a, 'graph>[ Builder::<'a, 'graph>::load ](b: &mut Builder<'a, 'graph>, o: LoadOptionsRef)
     ensures
